@@ -292,6 +292,137 @@ def check_levels_decoder(ctx, rule="R42.hybrid"):
     return done
 
 
+def check_streaming_decoder(ctx, rule="R42.hybrid"):
+    """The streaming decoder (init, then get / get_batch in pieces) on specification-written streams with several
+    groups per bit-packed run: however the caller cuts its requests, the values come out in stream order."""
+    P = ctx.P
+    init = P.fn_opt("carquet_rle_decoder_init", RL)
+    gb = P.fn_opt("carquet_rle_decoder_get_batch", RL)
+    g1 = P.fn_opt("carquet_rle_decoder_get", RL)
+    if init is None or gb is None:
+        return 0
+    key = "hybrid-decode-streaming|%s:carquet_rle_decoder_get_batch" % RL
+    what = ("the streaming decoder returns the values of a specification-written stream (several groups per bit-packed run, RLE runs in "
+            "between) in stream order for every way of cutting the requests (get / get_batch of 1..24 values)")
+    bad = None
+    done = 0
+
+    def unp(ev, a, it):
+        p = a[0]
+        if not isinstance(p, Ptr) or p.base != "in" or not isinstance(p.off, int) or not isinstance(a[2], Ptr):
+            raise sem.Inconclusive("group unpacker called on an untracked position")
+        for i in range(8):
+            it.heap[(a[2].base, a[2].off + 4 * i)] = Sym(("unp", p.off, i), 32)
+        return None
+    try:
+        for w in (3, 12):
+            v1 = 5
+            for runs, total in (([("bp", 3)], 24), ([("bp", 2), ("rle", 6, v1), ("bp", 2)], 38), ([("rle", 3, v1), ("bp", 4)], 35)):
+                stream, exp = hybrid_spec(runs, w, total)
+                heap0 = {("in", i): b for i, b in enumerate(stream) if b is not None}
+                mem = lambda base, off, size, n=len(stream): Sym(("load", "in", off, 8), 8) if base == "in" and size == 1 and 0 <= off < n else None
+                for cuts in ([total], [5, total - 5], [8, 8, total - 16], [7, 9, total - 16], [3, 3, 3, total - 9], [-1, total - 1], [-1, -1, 15, total - 17],
+                             [9, -1, total - 10], [1] * 10 + [total - 10], [23, total - 23], [16, total - 16]):
+                    r0, e0, heap = sem.run(P, init, [Ptr("dec", 0, 1), Ptr("in", 0, 1), len(stream), w], heap0=heap0, hooks={}, single=True,
+                                           memory=mem, max_forks=4, budget=50000)
+                    got = []
+                    pos = 0
+                    for c in cuts:
+                        if c == -1:
+                            if g1 is None:
+                                break
+                            r, e, heap = sem.run(P, g1, [Ptr("dec", 0, 1)], heap0=heap, hooks={"carquet_bitunpack8_32": unp}, single=True,
+                                                 memory=mem, max_forks=8, budget=200000, inline_depth=5)
+                            got.append(r)
+                            pos += 1
+                        else:
+                            r, e, heap = sem.run(P, gb, [Ptr("dec", 0, 1), Ptr("out", 4 * pos, 4), c], heap0=heap, hooks={"carquet_bitunpack8_32": unp},
+                                                 single=True, memory=mem, max_forks=8, budget=400000, inline_depth=5)
+                            if r != c:
+                                got.append(("short", r, c))
+                                break
+                            for i in range(c):
+                                got.append(heap.get(("out", 4 * (pos + i))))
+                            pos += c
+                    done += 1
+                    norm = []
+                    for v in got:
+                        if isinstance(v, Sym) and isinstance(v.t, tuple) and v.t[0] == "unp":
+                            norm.append(v.t)
+                        elif isinstance(v, Sym) and isinstance(v.t, tuple) and v.t[0] == "cast" and isinstance(v.t[2], tuple) and v.t[2][0] == "unp":
+                            norm.append(v.t[2])
+                        elif isinstance(v, int):
+                            norm.append(v & 0xFFFFFFFF)
+                        else:
+                            norm.append(("?", repr(v)[:40]))
+                    if bad is None and norm != exp[:len(norm)] or (bad is None and len(norm) != len(exp)):
+                        k = next((i for i, (a, b) in enumerate(zip(norm, exp)) if a != b), min(len(norm), len(exp)))
+                        bad = "width %d, runs %s, requests %s: value %d is %s, the stream holds %s there" % (
+                            w, runs, ["get" if c == -1 else c for c in cuts], k, norm[k] if k < len(norm) else None, exp[k] if k < len(exp) else None)
+    except (sem.Inconclusive, KeyError) as ex:
+        ctx.inconclusive(rule, key, P.where(gb.body), what, "%s: %s" % (type(ex).__name__, ex))
+        return 0
+    ctx.ob(rule, key, P.where(gb.body), what + " (%d request sequences)" % done, bad is None, bad or "")
+    return done
+
+
+def _zz(v):
+    return (v << 1) ^ (v >> 63) if v >= 0 else ((-v) << 1) - 1
+
+
+def check_delta_headers(ctx, rule="R42.delta"):
+    """DELTA_BINARY_PACKED streams written from the specification whose deltas are all equal (every mini-block width in use
+    is 0, so no packed payload exists and every value is determined by the headers): the decoder returns first + k * min_delta,
+    consumes exactly the headers, and ignores the width bytes of the mini-blocks the last block does not use - the
+    specification lets a writer leave anything there."""
+    P = ctx.P
+    n = 0
+    for name, bits in (("carquet_delta_decode_int32", 32), ("carquet_delta_decode_int64", 64)):
+        fn = P.fn_opt(name, "src/encoding/delta.c")
+        if fn is None:
+            continue
+        key = "delta-headers|src/encoding/delta.c:%s" % name
+        what = ("%s reads specification-written DELTA_BINARY_PACKED streams with constant deltas (block size 128, 4 mini-blocks): the values are "
+                "first + k * min_delta, exactly the header bytes are consumed, and the width bytes of unused mini-blocks may hold anything" % name)
+        bad = None
+        done = 0
+        try:
+            for count in (1, 2, 3, 33, 34, 65, 97, 128, 129, 130, 200):
+                for first, md in ((7, 3), (-5, -2), (0, 0), (1000, 1 << 20)):
+                    for junk in (0, 1, 5, 9, 0x20, 0xFF):
+                        nd = count - 1
+                        stream = varint(128) + varint(4) + varint(count) + varint(_zz(first))
+                        left = nd
+                        while left > 0:
+                            used = min(4, (left + 31) // 32)
+                            stream += varint(_zz(md)) + [0] * used + [junk] * (4 - used)
+                            left -= min(left, 128)
+                        end = len(stream)
+                        stream = stream + [0xEE] * 3          # bytes of whatever follows in the page
+                        heap0 = {("in", i): b for i, b in enumerate(stream)}
+                        ret, ev, heap = sem.run(P, fn, [Ptr("in", 0, 1), len(stream), Ptr("out", 0, bits // 8), count, Ptr("used", 0, 8)], heap0=heap0,
+                                                hooks={}, single=True, max_forks=8, budget=2000000, inline_depth=6)
+                        done += 1
+                        label = "%d values, first %d, min delta %d, unused width bytes %#x" % (count, first, md, junk)
+                        if bad is None and ret != 0:
+                            bad = "%s: returns %r for a legal stream" % (label, ret)
+                            continue
+                        if bad is None and heap.get(("used", 0)) != end:
+                            bad = "%s: reports %r bytes consumed, the stream's DELTA part is %d bytes" % (label, heap.get(("used", 0)), end)
+                            continue
+                        m = (1 << bits) - 1
+                        for k in sorted(set(x for x in (0, 1, count // 2, count - 1) if 0 <= x < count)):
+                            v = heap.get(("out", k * (bits // 8)))
+                            if bad is None and (not isinstance(v, int) or (v & m) != ((first + k * md) & m)):
+                                bad = "%s: value %d is %r, the specification gives %d" % (label, k, v, first + k * md)
+        except (sem.Inconclusive, KeyError) as ex:
+            ctx.inconclusive(rule, key, P.where(fn.body), what, "%s: %s" % (type(ex).__name__, ex))
+            continue
+        n += done
+        ctx.ob(rule, key, P.where(fn.body), what + " (%d streams)" % done, bad is None, bad or "")
+    return n
+
+
 def spec_decode_hybrid(bs, w, count):
     """the specification's reading of concrete bytes"""
     out = []
